@@ -88,6 +88,10 @@ Proof. vm_compute. reflexivity. Qed.
 (* SERIALIZABLE Set and a Set before the device ever connects, then it connects (F-C09-23) *)
 Example regression_sync_serializable : ends_well reg_sync_serializable = true.
 Proof. vm_compute. reflexivity. Qed.
+(* SERIALIZABLE Set on {t1, t2}, a follower on t1 only and one on t2 only, devices connect afterwards (both followers
+   must be woken by the transaction event: seeded change C09-m4) *)
+Example regression_serializable_two_followers : ends_well reg_serializable_two_followers = true.
+Proof. vm_compute. reflexivity. Qed.
 (* Set and its rollback before the device ever connects, then it connects (F-02e) *)
 Example regression_sync_wakeup : ends_well reg_sync_wakeup = true.
 Proof. vm_compute. reflexivity. Qed.
